@@ -46,6 +46,9 @@ pub struct VM {
 #[derive(Clone, Copy)]
 #[repr(C, align(8))]
 pub struct CallSiteCacheEntry {
+    // heap index of the callee this entry describes; call-site slot ids are not unique across
+    // compilation units (REPL inputs, reloaded bytecode), so a site must check the entry is its own
+    pub func_ptr: usize,
     pub bytecode_ptr: *const u32,
     pub constants_ptr: *const Value,
     pub bytecode_len: u32,
@@ -59,6 +62,7 @@ pub struct CallSiteCacheEntry {
 impl Default for CallSiteCacheEntry {
     fn default() -> Self {
         Self {
+            func_ptr: 0,
             bytecode_ptr: std::ptr::null(),
             constants_ptr: std::ptr::null(),
             bytecode_len: 0,
